@@ -413,6 +413,12 @@ proof fn axiom_encoding_has_prefix(b: Seq<u8>)
 //@| ensures state.network == network,
 //@end
 
+// [trusted:stand-in] lib.rs::verify_synced as seen from send_transaction: the current tree does not call it here, and C14/C19 exempt
+// send_transaction from the sync rule — a well-formed request on the right network with API access enabled must be answered
+// whatever the sync status. Any call is therefore an obligation that cannot be met.
+fn verify_synced()
+    requires false,
+{}
 // C19, written from the statement
 spec fn send_accepts(st: &SendState, req: &SendTransactionRequest) -> bool {
     st.api_access != Flag::Disabled && net_of(req.network) == st.network && is_tx_encoding(req.transaction@)
